@@ -387,3 +387,45 @@ def pmap(fn, items, procs=14):
     ctx = mp.get_context('fork')
     with ctx.Pool(min(procs, len(items))) as pool:
         return pool.map(fn, items, chunksize=1)
+
+
+class Raised(dict):
+    """Marker record: the system under test raised inside a modelled call."""
+
+
+def safe(fn):
+    """Wrap an export function item -> record so that an exception raised by
+    the system under test becomes an observation (rejected by the caller as a
+    violation: none of the modelled calls is allowed to raise) instead of a
+    machinery failure."""
+    import functools
+    import traceback
+
+    @functools.wraps(fn)
+    def wrapper(item):
+        try:
+            return fn(item)
+        except MachineryError:
+            raise
+        except BaseException as ex:    # noqa
+            tb = traceback.extract_tb(ex.__traceback__)
+            where = [f for f in tb if '/repo/' in f.filename]
+            loc = f'{where[-1].filename}:{where[-1].lineno}' if where else 'harness'
+            if not where:
+                raise
+            return Raised(_raised=f'{type(ex).__name__}: {str(ex)[:200]} at {loc}',
+                          _item=repr(item)[:300])
+    return wrapper
+
+
+def split_raised(prop, verdict, recs, label=lambda r: r.get('_item', '?')):
+    """Reject Raised markers; return the ordinary records."""
+    good = []
+    for r in recs:
+        if isinstance(r, Raised) or (isinstance(r, dict) and '_raised' in r):
+            exc = r['_raised'].split(':')[0]
+            verdict.reject(f"{prop}:raised:{exc}:{label(r)}"[:300],
+                           {'item': r.get('_item'), 'raised': r['_raised']})
+        else:
+            good.append(r)
+    return good
